@@ -3,8 +3,10 @@
    Proved in full for the modelled layer (docstring/signature merge of parse.function, ir_merge,
    _join_non_none, _merge_inner_function): for every admissible iteration order of every set the code
    iterates the result is the same, and the conversions take no process state.
-   One finding class remains below the model (C12Spec.finding_class_C12): an IR that holds a raw ast
-   node as a default is printed by the emitters with the node's memory address. *)
+   Two finding classes remain below the model (C12Spec.finding_class_C12_ir): an IR that holds a raw ast
+   node as a default (after fix 14f8a19 only a non-** parameter named *kwargs) is printed by the emitters
+   with the node's memory address; the argparse emitter expands a quoted one-element list default into a
+   raw node. *)
 From Coq Require String.
 Import String.StringSyntax.
 From DT Require Import PyStr PyVal PyAst IR Merge ParseSig C12Spec MergeFacts C12Facts.
